@@ -45,6 +45,12 @@ T["C13"] = ("Stateless search over all straight-line programs of length 1-2 (3 t
             "Direct mutation of .chunks / Chunk internals is outside (not API).")
 T["C20"] = ("The decoder decision tree of C03 with the three naming modes evaluated in lock-step at every state (same kind of outcome, bytes mode returns exactly the bytes), every curses-table key is a curtsies-table key, and all 136 valid configuration key names map (through keymap) to names collected as producible from the complete trees; unbound key -> ().",
             "R (producible names) is collected from the real decoder over the complete latin-1/utf-8 trees; upper-case C-A and 'M- ' are not checked.")
+T["C07"] = ("Explicit-state search over the real CursorAwareWindow (entered for real: Cbreak on a pty, cursor query answered by the reference terminal's DSR through a scripted in_stream) and a reference xterm with scrollback: every initial screen (0..h+2 printed lines; cursor parked on every row over junk) x keep_last_line x hide_cursor, all render histories of depth 2-3 (3-4 thorough) over heights 0..h+2 x 4 row patterns x cursor on the first/last array cell, exit from every state; oracle: exact scroll count, history prefix intact, return value, rows below blank, top_usable_row, cursor cell, visibility, tty attributes after exit. 0.44 M transitions quick.",
+            "Trusted: mc/term.py (LF scrolling into scrollback, DECSC/DECRC, CUP clamping). Rows no wider than the terminal; content differs per step so every history is its own state (no fixpoint claimed).")
+T["C08"] = ("Stateless deviation-bounded exploration of the real Input under a virtual kernel (os/select/time/fcntl/signal/termios substituted as module attributes): 10 k scenarios (byte streams cut into bursts at every byte position incl. inside characters, thresholds None/2/8; every placement of 1-2 (selected 3) environment events - event / thread-safe / scheduled triggers with past, equal and future times, SIGINT, arrivals, unget_bytes - among 2-3 requests with timeouts 0/5.0/None; multi-kilobyte bursts straddling the 1 024-byte read) x every execution with <= 2 (3 thorough) deviations: an event delivered early at any kernel call of a request or inside a timed wait, a thread-safe callback's write deferred past its append. Oracle: reference queue model (exactly-once, per-source order, scheduled events not early and in time order, no None while something is deliverable, no None before the timeout, paste events, no exception, lost wake-ups, everything delivered after the drain). 0.15 M / 0.48 M executions.",
+            "The virtual kernel is a model of the environment (CPython signal delivery, select argument order, GIL-atomic list.append); scheduling points are the library's kernel calls; three known findings share the split-character root cause.")
+T["C18"] = ("(a) get_cursor_position on a constructed window with scripted streams: 157 preceding inputs (all sequences of <=2 pieces of keypresses, escape sequences and look-alike fragments) x 7-bit/8-bit CSI x 49 reported positions (1..12345) x trailing input x callback present/absent, and every placement of <=2 failing reads; (b) all depth-3 histories over renders, queries answered with any row, and queries with a nested call fired inside the k-th read and a re-query, from every starting top_usable_row: conservation identity, nested call returns 0, flags reset. 0.39 M calls quick.",
+            "Complete look-alike reports preceding the real one are inherently ambiguous and filtered; blessed's own get_location path is outside.")
 BUILT = set(T)
 TECH = {
  "C02": "explicit-state BFS over render/resize histories, real window + reference terminal",
